@@ -917,8 +917,8 @@ class TaskScenario(ScenarioData):
                     old_total = res_scenario.slotSecondsUsed.get(self.currentSlotIdx, booked)
                     usage[i] = (task, needed)
                     res_scenario.slotSecondsUsed[self.currentSlotIdx] = old_total - booked + needed
-                    if res is resource:
-                        used_before = max(0.0, old_total - booked)
+                    # (team members work the same instants: the latest begin counts)
+                    used_before = max(used_before, old_total - booked)
                     break
 
         if used_before > 0 and slot_start is not None:
@@ -1373,11 +1373,24 @@ class TaskScenario(ScenarioData):
                 # Can't book - one or more resources unavailable
                 return
 
+        # A team works the same instants: every member is booked for the part of the
+        # slot that is free for all of them (members may have different remainders when
+        # they share the slot with other tasks)
+        common_seconds: Optional[float] = None
+        if effort > 0 and len(resources_to_book) > 1:
+            slot_idx = self.currentSlotIdx if self.currentSlotIdx is not None else 0
+            offset = self.slotStartOffset if self.doneEffort == 0 else 0.0
+            slot_duration = self.project.attributes.get("scheduleGranularity", 3600)
+            for resource in resources_to_book:
+                used = max(resource.data[self.scenarioIdx].slotSecondsUsed.get(slot_idx, 0.0), offset)
+                free = max(0.0, slot_duration - used)
+                common_seconds = free if common_seconds is None else min(common_seconds, free)
+
         # Now book all resources (or single resource for non-team tasks)
         booked_any = False
         total_effort_this_slot = 0.0
         for resource in resources_to_book:
-            effort_gained = self.bookResource(resource)
+            effort_gained = self.bookResource(resource, common_seconds)
             if effort_gained > 0:
                 booked_any = True
                 # Track maximum effort from any single resource (not sum)
@@ -1470,12 +1483,13 @@ class TaskScenario(ScenarioData):
             else:
                 limits.dec(sbIdx, resource=resource.id)
 
-    def bookResource(self, resource: Any) -> float:
+    def bookResource(self, resource: Any, max_seconds: Optional[float] = None) -> float:
         """
         Try to book a single resource for the current slot.
 
         Args:
             resource: The resource to book
+            max_seconds: Book at most this many seconds of the slot (team bookings)
 
         Returns:
             Effort gained from this booking (hours), or 0 if booking failed.
@@ -1508,7 +1522,7 @@ class TaskScenario(ScenarioData):
             return 0.0
 
         # Book the resource - returns effort gained (accounts for partial slots)
-        result_float: float = res_scenario.book(slot_idx, self.property)
+        result_float: float = res_scenario.book(slot_idx, self.property, max_seconds=max_seconds)
         return result_float
 
     def propagateDate(self, date: datetime, atEnd: bool) -> None:
